@@ -280,7 +280,7 @@ def c18(k, ctx):
 
 
 def c15(k, ctx):
-    ctx.rule = ("one case = one call of interleave (u32 / f64 / GF2 elements), deinterleave, puncture, depuncture or rate on tagged inputs: every (C, R, direction) up to 6x6 "
+    ctx.rule = ("one case = one call of interleave (u32 / f64 / GF2 elements), deinterleave, puncture, depuncture or rate on tagged inputs (interleave and puncture take array views: inputs rotate through owned / stride -1 / stride 2 / stride -2 layouts): every (C, R, direction) up to 6x6 "
                 "(8x8 thorough) + random shapes up to 40x40; every pattern up to length 5 (6) with a TRUE at every input length 0..3*len+2 (fitting and not fitting) + random patterns "
                 "up to length 12; non-trivial = distinct cases with C >= 2 and R >= 2, or with a pattern that removes at least one block, or with a length that does not fit")
     ctx.tlc_mc("MC_Chain", "MC_Chain_thorough.cfg" if ctx.thorough else "MC_Chain.cfg")
